@@ -145,6 +145,7 @@ class Builder:
         self.pathmut = cfg.get("pathmut", "none")
         self.ext_so = ext_so
         self.cfaults: dict = {}
+        self.extra_paths: list = []
         self.files: dict = {}
 
     def _write(self, path: str, text: str):
@@ -202,6 +203,15 @@ class Builder:
             os.makedirs(pdir, exist_ok=True)
         elif top == "sofile":
             self._module("p", "so", self.sp, "p")
+        elif top == "zip":
+            # a source package inside a zip archive that is itself an entry of the search path
+            import zipfile  # noqa: PLC0415
+
+            zpath = os.path.join(self.sp, "z.zip")
+            with zipfile.ZipFile(zpath, "w") as zf:
+                zf.writestr("p/__init__.py", self._code("p"))
+            self.extra_paths.append(zpath)
+            self.files["p"] = zpath
         if top in ("py", "pyi", "so", "xc", "ns"):
             if cfg["layout"] == "flat":
                 for m in ("a", "b"):
@@ -222,3 +232,11 @@ class Builder:
             elif ek == "sofile":
                 self._module("q", "so", self.sp, ext_name(cfg))
         return self
+
+    def commit(self):
+        """Put the generated tree under git (load_git entry): `root` becomes a repository with one commit."""
+        git = ["git", "-C", self.root, "-c", "user.name=c15", "-c", "user.email=c15@example.invalid", "-c", "core.excludesFile=", "-c", "commit.gpgsign=false"]
+        for args in (["init", "-q"], ["add", "-f", "--", "sp"], ["commit", "-q", "--allow-empty", "-m", "case"]):
+            proc = subprocess.run(git + args, capture_output=True, text=True, check=False)
+            if proc.returncode != 0:
+                raise RuntimeError(f"git {args[0]} failed: {proc.stderr[-300:]}")
